@@ -42,7 +42,18 @@ template<> int makeVal<int>(int64_t v) { return (int) v; }
 template<> std::string makeVal<std::string>(int64_t v) { return "argument-string-long-enough-for-the-heap-" + std::to_string(v); }
 template<> Payload makeVal<Payload>(int64_t v) { return Payload(v); }
 
+// An observer type of its own (not EternalObserver): valid for a fixed number of deliveries. Exercises the virtual
+// isValid()/invalidate() interface, Observer::operator=(Func) and lazy removal right after the last delivery.
+template<class... Args>
+struct CountdownObserver : Observer<Args...> {
+    int left;
+    explicit CountdownObserver(int n) : left(n) {}
+    bool isValid() const override { return left > 0; }
+    void invalidate() override { left = 0; }
+};
+
 struct Cover {
+    uint64_t countdownObservers = 0;
     uint64_t histories = 0, ops = 0, notifies = 0, nestedNotifies = 0, calls = 0, inRoundActions = 0, staleRejected = 0;
     uint64_t selfUnsub = 0, unsubOther = 0, lazyRemovals = 0, handleMoves = 0, nontrivialCases = 0, maxDepth = 0, tokensDestroyed = 0;
     std::map<std::string, uint64_t> opCount, sigCount, actionCount;
@@ -75,6 +86,7 @@ struct Runner {
     };
     struct Entry {
         bool present = false, valid = true, muted = false, destroyed = false, removedInRound = false;
+        int countdown = 0;   // > 0: a CountdownObserver that expires after that many deliveries
         Sub handle;
         int calls = 0;
     };
@@ -141,6 +153,7 @@ struct Runner {
         }
         ++r.cursor;
         ++e[id]->calls;
+        if (e[id]->countdown && e[id]->calls >= e[id]->countdown) e[id]->valid = false;   // this was its last delivery
         if constexpr (kRef) {
             if (*refArg != (int) r.v + r.callsInRound)
                 return fail(gProp, "wrong-argument", site, "observer " + std::to_string(id) + " received int& value " + std::to_string(*refArg) + ", expected " + std::to_string(r.v + r.callsInRound));
@@ -189,7 +202,7 @@ struct Runner {
     int subscribe(Subj &s, bool count = true) {
         int id = (int) e.size();
         e.emplace_back(new Entry());
-        unsigned form = (unsigned) rng.below(4);
+        unsigned form = (unsigned) rng.below(5);
         auto fn = makeCallable(id, 0);
         Entry &x = *e[id];
         if (count) log("sub" + std::to_string(id) + "/" + std::to_string(form));
@@ -200,6 +213,16 @@ struct Runner {
                         fn(std::forward<Args>(a)...);
                     }); break;
             case 2: x.handle = s.subscribe(std::make_unique<EternalObserver<Args...>>(typename Obs::Func(fn))); break;
+            case 4: {
+                int n = (int) rng.range(1, 3);
+                auto obs = std::make_unique<CountdownObserver<Args...>>(n);
+                CountdownObserver<Args...> *raw = obs.get();
+                static_cast<Obs &>(*obs) = typename Obs::Func([fn, raw](Args... a) { --raw->left; fn(std::forward<Args>(a)...); });
+                x.countdown = n;
+                ++C.countdownObservers;
+                x.handle = s.subscribe(std::move(obs));
+                break;
+            }
             default: x.handle = s.subscribe(new EternalObserver<Args...>(typename Obs::Func(fn))); break;
         }
         x.present = true;
@@ -453,7 +476,7 @@ int main(int argc, char **argv) {
                    .kv("nestedNotifies", C.nestedNotifies).kv("calls", C.calls).kv("inRoundActions", C.inRoundActions)
                    .kv("staleRejected", C.staleRejected).kv("selfUnsub", C.selfUnsub).kv("unsubOther", C.unsubOther)
                    .kv("lazyRemovals", C.lazyRemovals).kv("handleMoves", C.handleMoves).kv("nontrivialCases", C.nontrivialCases)
-                   .kv("maxDepth", C.maxDepth).kv("tokensDestroyed", C.tokensDestroyed)
+                   .kv("maxDepth", C.maxDepth).kv("tokensDestroyed", C.tokensDestroyed).kv("countdownObservers", C.countdownObservers)
                    .raw("opCount", rt::jsonCounts(C.opCount)).raw("signatures", rt::jsonCounts(C.sigCount))
                    .raw("inRoundActionKinds", rt::jsonCounts(C.actionCount)).raw("samples", rt::jsonArray(C.samples, false)));
     return 0;
